@@ -1,6 +1,7 @@
 #!/bin/bash
 # usage: try_mutant.sh <patch.diff> <PROP> [more props...]   -- applies the patch to /repo, runs quick checks, reverts.
 patch="$1"; shift
+export VERIF_EVIDENCE_DIR=/tmp/verif_mutant_evidence
 cd /repo || exit 9
 if [ -n "$(git status --porcelain -- pyxform)" ]; then echo "/repo/pyxform not clean"; exit 9; fi
 git apply "$patch" || { echo "patch does not apply"; exit 9; }
